@@ -124,7 +124,8 @@ fn first_missed_break(sentence: &str, abs: usize, text: &str, occ: &[(usize, usi
         let mut demand = level(&sentence[..match_end]) == 0;
         if demand {
             let next = idx[next_k].1;
-            if "とっでやの".contains(next) {
+            // quoting particles: と っ で(す). や and の only matter after an itemisation header, which needs a period
+            if "とっで".contains(next) || (!strong && "やの".contains(next)) {
                 demand = false;
             }
         }
@@ -346,6 +347,10 @@ pub fn run(ctx: &Ctx, rep: &mut Report) {
             }
             check_text_small(&world, &words, &long, 4096, true, rep);
             rep.count("texts_longer_than_the_window", 1);
+            // a window larger than the default one must really be used: the first terminator lies beyond 4096 characters
+            let far = format!("{}。{}", "あ".repeat(4500 + rng.below(1000)), gen_text(&mut rng, &words, 8));
+            check_text(&world, &words, &far, Some(16384), wi % 32 == 0, "", rep);
+            rep.count("texts_needing_a_window_larger_than_default", 1);
         }
     }
     if ctx.shard == 0 && ctx.only.is_none() {
